@@ -753,6 +753,7 @@ static link_t *HLInewlink(int32 file_id, int32 number_blocks, uint16 link_ref, u
                       (g_img_n == 1 && g_img_ref[0] == link_ref && g_img[0][0] == 0 && g_img[0][1 + g_j] == (g_j == 0 ? first_block_ref : 0) &&
                        g_start_n == 1 && g_end_n == 1 && g_twr_n == 1));
 
+
 #ifdef H4V_NATIVE
 #include "h4v_native_wrap.h"
 #endif
@@ -1198,3 +1199,4 @@ h_HLInewlink(void)
     H4V_COVER(l == NULL, "HLInewlink fault");
     H4V_CANARY("HLInewlink end");
 }
+
